@@ -33,7 +33,7 @@ CONSTANTS Ids,          \* key values that scenarios may use
           Stable,       \* BOOLEAN: stable row ids enabled
           OpKinds,      \* subset of {"append","delete","update","upsert","compact","overwrite","restore","checkout"}
           MaxBatch,     \* rows per appended / overwritten batch (1 or 2)
-          Deviations    \* subset of {"RestoreRewindsRowIds", "UpdateCreatedAtFromRowIdBits"}
+          Deviations    \* subset of {"RestoreRewindsRowIds", "UpdateCreatedAtFromRowIdBits", "IndexIgnoresColumnRewrite"}
 
 NULL == -1
 AllVals == Vals \cup {NULL}
@@ -59,7 +59,7 @@ Addr(f, o) == <<f.id, o>>
 (* Transactions as lance records them                                      *)
 (***************************************************************************)
 NoTxn == [kind |-> "none", upd |-> {}, rem |-> {}, affected |-> {}, hasAffected |-> FALSE,
-          old |-> {}, newRows |-> <<>>, delIds |-> {}, restoreTo |-> 0, newIx |-> [has |-> FALSE, frags |-> {}, snap |-> <<>>]]
+          old |-> {}, newRows |-> <<>>, delIds |-> {}, restoreTo |-> 0, filesChanged |-> FALSE, newIx |-> [has |-> FALSE, frags |-> {}, snap |-> <<>>]]
 Mod(t) == t.upd \cup t.rem \cup t.old
 
 \* check_txn: outcome of committing `self` after `other` has committed
@@ -79,10 +79,16 @@ Check(self, other) ==
             [] ok \in {"delete", "update"} ->
                  IF Mod(other) \cap Mod(self) = {} THEN "ok"
                  ELSE IF ~self.hasAffected THEN "retryable"
+                 ELSE IF other.filesChanged THEN "retryable"     \* data files, not just deletion files, were modified
                  ELSE IF other.rem \cap Mod(self) # {} THEN "retryable"
                  ELSE "rebase"           \* decided in Finish by the deletion vectors
             [] OTHER -> "ok")
-    [] sk = "index" -> IF ok = "rewrite" /\ other.old \cap self.newIx.frags # {} THEN "retryable" ELSE "ok"
+    [] sk = "index" -> IF ok = "rewrite" /\ other.old \cap self.newIx.frags # {} THEN "retryable"
+                       \* a concurrent in-place rewrite of the indexed column in a fragment the index covers
+                       \* (deviation: the code before the repair let the index commit)
+                       ELSE IF ok = "update" /\ other.filesChanged /\ other.upd \cap self.newIx.frags # {}
+                               /\ "IndexIgnoresColumnRewrite" \notin Deviations THEN "retryable"
+                       ELSE "ok"
     [] sk = "rewrite" ->
          (CASE ok = "append" -> "ok"
             [] ok = "index" -> IF other.newIx.frags \cap self.old # {} THEN "retryable" ELSE "ok"
@@ -332,6 +338,36 @@ DoUpsert(h, sid, sval) ==
                             ELSE [i \in DOMAIN truth \cup {sid} |-> IF i = sid THEN [cre |-> NewVer, upd |-> NewVer] ELSE truth[i]]
   /\ nops' = nops + 1
 
+\* in-place column rewrite (merge_insert with a source that has only some of the columns: UpdateMode::RewriteColumns):
+\* rows stay where they are, the fragment gets a new data file for the rewritten column
+DoColUpdate(h, S, nv) ==
+  /\ "colupdate" \in OpKinds /\ CanWrite(h)
+  /\ LET rv == hv[h]
+         R == vers[rv]
+         hit == {R.frags[i].id : i \in {j \in 1..Len(R.frags) : \E o \in LiveOffs(R.frags[j]) : R.frags[j].rows[o+1].id \in S}}
+         ids == {r.id : r \in {x \in RowSet(R) : x.id \in S}}
+         t == [NoTxn EXCEPT !.kind = "update", !.upd = hit, !.hasAffected = FALSE, !.filesChanged = TRUE, !.delIds = ids]
+         res == IF ids = {} THEN "noop" ELSE Outcome(t, rv)
+         step == [op |-> "colupdate", h |-> h, ids |-> S, val |-> nv, res |-> res]
+     IN IF res = "noop" THEN /\ lastRes' = "ok" /\ hist' = Append(hist, [step EXCEPT !.res = "ok"])
+                             /\ UNCHANGED <<vers, hv, ix, issued, truth, serial, reused>>
+        ELSE IF res # "ok" THEN Fail(res, step)
+        ELSE LET L == Latest
+                 nfr == [i \in 1..Len(L.frags) |->
+                           [L.frags[i] EXCEPT !.rows = [k \in 1..Len(@) |->
+                               IF @[k].id \in ids /\ (k-1) \notin L.frags[i].del
+                               THEN [@[k] EXCEPT !.val = nv, !.upd = IF Stable THEN NewVer ELSE -1] ELSE @[k]]]]
+                 v == [frags |-> nfr, maxFrag |-> L.maxFrag, nextRid |-> L.nextRid, txn |-> t]
+             IN /\ vers' = Append(vers, v)
+                \* the rewritten column is the indexed one: the touched fragments leave the index's bitmap
+                /\ ix' = Append(ix, IF LatestIx.has THEN [LatestIx EXCEPT !.frags = @ \ hit] ELSE LatestIx)
+                /\ lastRes' = "ok" /\ hist' = Append(hist, step)
+                /\ hv' = [hv EXCEPT ![h] = NewVer]
+                /\ serial' = {r \in serial : r.id \notin ids} \cup {[id |-> i, val |-> nv] : i \in ids \cap {r.id : r \in serial}}
+                /\ truth' = [i \in DOMAIN truth |-> IF i \in ids THEN [truth[i] EXCEPT !.upd = NewVer] ELSE truth[i]]
+                /\ UNCHANGED <<issued, reused>>
+  /\ nops' = nops + 1
+
 \* compaction of all fragments into one (materialising deletions); planned at the read version
 DoCompact(h) ==
   /\ "compact" \in OpKinds /\ CanWrite(h) /\ NV + 1 < MaxVersions
@@ -425,6 +461,7 @@ Next ==
   \/ \E h \in Handles, S \in (SUBSET Ids) \ {{}} : DoDelete(h, S)
   \/ \E h \in Handles, S \in (SUBSET Ids) \ {{}}, nv \in Vals : DoUpdate(h, S, nv)
   \/ \E h \in Handles, i \in Ids, nv \in Vals : DoUpsert(h, i, nv)
+  \/ \E h \in Handles, S \in (SUBSET Ids) \ {{}}, nv \in Vals : DoColUpdate(h, S, nv)
   \/ \E h \in Handles : DoCompact(h)
   \/ \E h \in Handles, rows \in FreshRows : DoOverwrite(h, rows)
   \/ \E h \in Handles, v \in 1..MaxVersions : DoRestore(h, v)
